@@ -288,7 +288,7 @@ def install_market_ops():
     import math as _math
 
     def ao_pre(m, order):
-        return dict(price=order.price, is_buy=order.is_buy, vol=order.volume, nid=m._next_order_id, t=m.time, ser=_series(m), rec=_records(m), tick=m.tick_size,
+        return dict(mp=m._market_prices[m.time], price=order.price, is_buy=order.is_buy, vol=order.volume, nid=m._next_order_id, t=m.time, ser=_series(m), rec=_records(m), tick=m.tick_size,
                     nb=len(m.buy_order_book.priority_queue), ns=len(m.sell_order_book.priority_queue))
 
     def ao_post(m, c, log, order):
@@ -323,6 +323,7 @@ def install_market_ops():
             raise ContractViolation(F, "C10 the returned OrderLog carries the accepted order's values")
         if c["rec"] is not None and [id(x) for x in m.logger.pending_logs] != [id(x) for x in c["rec"]] + [id(log)]:
             raise ContractViolation(F, "C10 exactly one record (the OrderLog) is handed to the logger")
+        c08_quotes(m, F, c["mp"])
     wrap(Market, "_add_order", ao_pre, ao_post)
 
     def ut_pre(m, next_fundamental_price):
@@ -362,9 +363,27 @@ def install_market_ops():
                 raise ContractViolation(F, "C10 exactly one expiration record per expired order, with its remaining volume (buy side then sell side)", dict(expected=exp, got=got))
     wrap(Market, "_update_time", ut_pre, ut_post)
 
+    def c08_quotes(m, F, mp_before):
+        """C08 after a book event: mid = (best bid + best ask)/2 iff both best quotes are limit prices, else None; market price = last trade,
+        else mid, else its previous value (unchanged when the market is not running)"""
+        t = m.time
+        tops = []
+        for b in (m.buy_order_book, m.sell_order_book):
+            tops.append(min(b.priority_queue).price if b.priority_queue else None)
+        want_mid = (tops[0] + tops[1]) / 2 if (tops[0] is not None and tops[1] is not None) else None
+        if m._mid_prices[t] != want_mid:
+            raise ContractViolation(F, "C08 mid refreshed from the resulting book", dict(stored=m._mid_prices[t], best_bid=tops[0], best_ask=tops[1]))
+        if m._is_running:
+            le = m._last_executed_prices[t]
+            want = le if le is not None else (want_mid if want_mid is not None else mp_before)
+        else:
+            want = mp_before
+        if m._market_prices[t] != want:
+            raise ContractViolation(F, "C08 market price = last trade, else mid, else previous; unchanged when not running", dict(stored=m._market_prices[t], expected=want))
+
     def co_pre(m, cancel):
         o = cancel.order
-        return dict(vol=o.volume, rec=_records(m), t=m.time, inB=rests(m.buy_order_book, o), inS=rests(m.sell_order_book, o),
+        return dict(mp=m._market_prices[m.time], vol=o.volume, rec=_records(m), t=m.time, inB=rests(m.buy_order_book, o), inS=rests(m.sell_order_book, o),
                     nB=len(m.buy_order_book.priority_queue), nS=len(m.sell_order_book.priority_queue))
 
     def co_post(m, c, log, cancel):
@@ -378,6 +397,7 @@ def install_market_ops():
             raise ContractViolation(F, "C10 the CancelLog reports the order's identity and its remaining volume at the cancel time")
         if c["rec"] is not None and [id(x) for x in m.logger.pending_logs] != [id(x) for x in c["rec"]] + [id(log)]:
             raise ContractViolation(F, "C10 exactly one record (the CancelLog) is handed to the logger")
+        c08_quotes(m, F, c["mp"])
     wrap(Market, "_cancel_order", co_pre, co_post)
 
     def eo_pre(m, price, volume, buy_order, sell_order):
